@@ -299,11 +299,22 @@ func (s *rstate) eval(n *ref.N) (rval, error) {
 			s.log = append(s.log, "sp:"+r.String())
 			return r, nil
 		}
+		if n.Kids[0].K == "id" && n.Kids[0].Val == "scr" && !n.Spread && len(args) == 1 && args[0].k == "arr" {
+			// scr(xs): a host function that writes to the slice it received (its own copy) and returns the length
+			s.log = append(s.log, "scr:"+args[0].String())
+			return rval{k: "num", d: ref.FromInt64(int64(len(args[0].elems)))}, nil
+		}
 		if n.Kids[0].K != "id" || n.Kids[0].Val != "rec" || len(args) != 2 {
 			return rval{}, errRef
 		}
 		s.log = append(s.log, args[0].String()+";"+args[1].String())
 		return args[1], nil
+	case "typeof":
+		// typeof evaluates its operand like any other operator (whatever the operand binds is bound)
+		if _, err := s.eval(n.Kids[0]); err != nil {
+			return rval{}, err
+		}
+		return rval{k: "unk"}, nil
 	case "sel":
 		// member access: the operand is evaluated (once), with whatever it binds; only null operands are
 		// modelled further (null for `.`, an error for `!.`), the member itself is not
@@ -493,14 +504,23 @@ func judgeProg(c ProgCase) *eng.Fail {
 		implLog = append(implLog, "sp:"+canonImpl(all))
 		return all, nil
 	}
+	scr := func(xs []interface{}) (interface{}, error) {
+		implLog = append(implLog, "scr:"+canonImpl(xs))
+		for i := range xs {
+			xs[i] = "scribbled"
+		}
+		return float64(len(xs)), nil
+	}
 	r := formula.NewRunner()
 	if data != nil {
 		data["rec"] = rec
 		data["sp"] = sp
+		data["scr"] = scr
 		r.SetThis(data)
 	} else {
 		r.SetThisValue("rec", rec)
 		r.SetThisValue("sp", sp)
+		r.SetThisValue("scr", scr)
 	}
 	rs.data["rec"] = rval{k: "unk"}
 	before := ""
@@ -581,9 +601,11 @@ func judgeProg(c ProgCase) *eng.Fail {
 		if data != nil {
 			delete(data, "rec")
 			delete(data, "sp")
+			delete(data, "scr")
 			after := snapshot(data)
 			data["rec"] = rec
 			data["sp"] = sp
+			data["scr"] = scr
 			if stripRec(before) != stripRec(after) {
 				return eng.F("C07/frame", "%s: caller data changed\n  before: %s\n  after:  %s", what, stripRec(before), stripRec(after))
 			}
@@ -594,7 +616,7 @@ func judgeProg(c ProgCase) *eng.Fail {
 
 func stripRec(s string) string {
 	// the recording functions are harness-owned; remove their entries from the rendering
-	for _, name := range []string{"rec=", "sp="} {
+	for _, name := range []string{"rec=", "sp=", "scr="} {
 		i := strings.Index(s, name)
 		if i < 0 || (i > 0 && s[i-1] != ';') && i != 0 {
 			continue
@@ -689,6 +711,8 @@ var c07Pool = []string{"$a", "$a = 1", "$a = $b", "$b = [$a, x]", "$a = 2, $b = 
 	"$a = [], $a", "$b = [], [$b, $a]", "rec($a = [], $a)", "$a = [[]], $a",
 	"$a = x ? 1 : 2, $a", "$a = $b = x ? 3 : 4, [$a, $b]", "$a = 0 ? 1 : 2", "$b = $a ? $a : 7, [$a, $b]", "x ? $a = 5 : 0, [$a, $b]", "$a ? 0 : ($b = 8), $b",
 	"$a = 1, ($a = $a + 1, m)!.n, $a", "$b = 1, [($b = $b + 1, m)!.n!.deep, $b]", "($a = 1, m).n, $a", "rec($a = 2, m)!.n, $a", "[rec(1, m)!.n, rec(2, 3)]", "$b = 2, ($b = $b + $b, m).n.deep, $b", "($a = 1, $b)!.n, $a",
+	"typeof [$a = 7, $a + 1], $a", "typeof ($b = 2), $b", "[typeof [$a = 1], $a]", "typeof [rec(1, $a = 5)], $a", "typeof $a = 3, $a", "typeof [[$b = 4]], [$b]",
+	"$a = [1, 2], scr($a), $a", "$b = [$a, 2], [scr($b), $b]", "scr([1, 2]), $a", "$a = [[1], 2], scr($a), scr($a), $a", "scr(s), s", "[scr(s), s, scr(s)]",
 	c07Wide1, c07Wide2}
 
 // wide array literals: the first element binds a local that elements in every later quarter read
